@@ -212,6 +212,15 @@ def opt_nonempty(S, L, off, cnt):
 ARITH_BACK_AT = "(len-1)/size*size"
 
 
+def _untyped(t):
+    """integer literals without their type tag (a `match` arm and an `==` test spell the same constant differently)"""
+    if isinstance(t, tuple):
+        if t and t[0] == "int":
+            return ("int", t[1])
+        return tuple(_untyped(x) for x in t)
+    return t
+
+
 def chunks(ctx, prog):
     S = ("vfield", fld(0), 1, 0)
     N = fld(1)
@@ -270,7 +279,8 @@ def chunks(ctx, prog):
                 item_i, rest_i = 1, 0
             else:
                 rem = ("bin", "Rem", L, N)
-                ok = (at == N and eq(rem, Int(0)) in conds) or (at == rem and ne(rem, Int(0)) in conds)
+                untyped = [_untyped(c) for c in conds]
+                ok = (at == N and _untyped(eq(rem, Int(0))) in untyped) or (at == rem and _untyped(ne(rem, Int(0))) in untyped)
                 item_i, rest_i = 0, 1
             if not ok:
                 msg = "splits at %s under %s; accepted idioms: %s" % (show(at), [sym.show_atom(c) for c in conds if "Rem" in repr(c)],
